@@ -363,6 +363,113 @@ pub fn campaigns(ctx: &Ctx) -> Stats {
             }
         }));
     }
+    // operands and seeds of very different magnitudes (per array and per element), full mantissas
+    {
+        use OpKind::*;
+        let (gb, gj, arg_max) = if crate::exec::IS_F32 { (4, 3, 60.0) } else { (40, 20, 600.0) };
+        let kinds = 24u64;
+        let shapes: Vec<Vec<usize>> = vec![vec![5], vec![2, 3], vec![3, 1, 2], vec![9]];
+        let seed_salt = ctx.seed.wrapping_mul(0x9E3779B1);
+        st.merge(ctx.run_indexed("wide-magnitudes", kinds * shapes.len() as u64 * t.pick(150, 4000), None, |i| {
+            let d = shapes[((i / kinds) % shapes.len() as u64) as usize].clone();
+            let n = numel(&d);
+            let z = mix(i ^ 0xC02 ^ seed_salt);
+            let j = if (z >> 20) & 1 == 0 { 0 } else { gj };
+            let vals = |salt: u64, n: usize, signed: bool| wide_vals(z ^ salt, n, pick_base((z >> (8 * (salt % 3))) as u8, gb), j, signed);
+            let args = |n: usize| wide_vals(z, n, pick_base(z as u8, 40).min(9), j.min(8), true).into_iter().map(|v: f64| v.clamp(-arg_max, arg_max)).collect::<Vec<f64>>();
+            let leaf = |dims: &[usize], vals: Vec<f64>, tracked: bool| LeafSpec { dims: dims.to_vec(), vals, tracked };
+            let tr = EW_TRACK[((z >> 33) % 3) as usize];
+            let k = 2f64.powi(pick_base((z >> 8) as u8, gb)) * if (z >> 30) & 1 == 0 { 1.0 } else { -1.5 };
+            let (op, leaves): (OpKind, Vec<LeafSpec>) = match i % kinds {
+                0 => (Add, vec![leaf(&d, vals(1, n, true), tr[0]), leaf(&d[d.len() - 1..], vals(2, d[d.len() - 1], true), tr[1])]),
+                1 => (Sub, vec![leaf(&d[d.len() - 1..], vals(1, d[d.len() - 1], true), tr[0]), leaf(&d, vals(2, n, true), tr[1])]),
+                2 => (Mul, vec![leaf(&d, vals(1, n, true), tr[0]), leaf(&d, vals(2, n, true), tr[1])]),
+                3 => (Div, vec![leaf(&d, vals(1, n, true), tr[0]), leaf(&d[d.len() - 1..], vals(2, d[d.len() - 1], true), tr[1])]),
+                4 => (Div, vec![leaf(&[1], vals(1, 1, true), tr[0]), leaf(&d, vals(2, n, true), tr[1])]),
+                5 => (Axpy(k), vec![leaf(&d, vals(1, n, true), tr[0]), leaf(&d, vals(2, n, true), tr[1])]),
+                6 => (Neg, vec![leaf(&d, vals(1, n, true), true)]),
+                7 => (ScaleR(k), vec![leaf(&d, vals(1, n, true), true)]),
+                8 => (ScaleL(k), vec![leaf(&d, vals(1, n, true), true)]),
+                9 => (Relu, vec![leaf(&d, vals(1, n, true), true)]),
+                10 => (Sum(1 + (z >> 40) as usize % d.len()), vec![leaf(&d, vals(1, n, true), true)]),
+                11 => (Reshape(vec![n]), vec![leaf(&d, vals(1, n, true), true)]),
+                12 => (Ln, vec![leaf(&d, vals(1, n, false), true)]),
+                13 => (Recip, vec![leaf(&d, vals(1, n, true), true)]),
+                14 => (Exp, vec![leaf(&d, args(n), true)]),
+                15 => (Sigmoid, vec![leaf(&d, args(n), true)]),
+                16 => (Softmax, vec![leaf(&d, args(n), true)]),
+                17 => (Powf([2.0, 3.0, 4.0, -1.0, -2.0, 1.0][(z >> 44) as usize % 6]), vec![leaf(&d, vals(1, n, true), true)]),
+                18 => (Powf([0.5, 1.5, -0.5, -1.5, 2.5, 0.25][(z >> 44) as usize % 6]), vec![leaf(&d, vals(1, n, false), true)]),
+                19 | 20 => {
+                    let (ta, tb) = ((z >> 41) & 1 == 1, (z >> 42) & 1 == 1);
+                    let (r, kk, c) = [(2, 3, 2), (1, 4, 3), (3, 2, 1), (2, 8, 2)][(z >> 44) as usize % 4];
+                    let a: Vec<usize> = if ta { vec![kk, r] } else { vec![r, kk] };
+                    let b: Vec<usize> = if tb { vec![c, kk] } else { vec![kk, c] };
+                    let mut l = vec![leaf(&a, vals(1, r * kk, true), tr[0]), leaf(&b, vals(2, kk * c, true), tr[1])];
+                    let has_c = i % kinds == 20;
+                    if has_c {
+                        l.push(leaf(&[c], vals(3, c, true), true));
+                    }
+                    (Matmul { ta, tb, has_c }, l)
+                }
+                21 | 22 => {
+                    let (image, filters): (Vec<usize>, Vec<usize>) = if i % kinds == 21 { (vec![1, 3, 3], vec![2, 1, 2, 2]) } else { (vec![2, 2, 3, 4], vec![1, 2, 2, 3]) };
+                    (Conv { sr: 1, sc: 1 }, vec![leaf(&image, vals(1, numel(&image), true), tr[0]), leaf(&filters, vals(2, numel(&filters), true), tr[1])])
+                }
+                _ => (Mul, vec![leaf(&d, vals(1, n, true), tr[0]), leaf(&[1], vals(2, 1, true), tr[1])]),
+            };
+            let mut rs = refmodel::model::RefState::forward_only();
+            let hs: Vec<usize> = leaves.iter().map(|l| rs.new_leaf(&l.dims, &l.vals, false)).collect();
+            let out = rs.eval(&op, &hs).ok()?;
+            let seed = if (z >> 50) % 6 == 0 { None } else { Some(wide_vals(z ^ 99, out.numel(), pick_base((z >> 52) as u8, gb), j, true)) };
+            Some(GradCase { op, leaves, seed, uses: 1, passes: 1, same_operand: false, detached_clone: 0 })
+        }));
+    }
+    // dimensions at and beyond typical block / panel lengths (64 .. 130) in matmul, conv and element-wise operations
+    {
+        use OpKind::*;
+        let mm: Vec<(usize, usize, usize)> = vec![(2, 3, 96), (3, 2, 97), (96, 2, 3), (2, 97, 2), (2, 130, 3), (128, 2, 2), (5, 5, 100), (1, 3, 128), (4, 64, 4)];
+        let nmm = mm.len() as u64;
+        st.merge(ctx.run_indexed("large-matmul-dimensions", nmm * 4 * 4, None, |i| {
+            let (r, k, c) = mm[(i % nmm) as usize];
+            let (ta, tb) = ((i / nmm) % 2 == 1, (i / nmm / 2) % 2 == 1);
+            let tri = ((i / nmm / 4) % 4) as usize;
+            let lead: Vec<usize> = if tri == 3 { vec![2] } else { vec![] };
+            let mut a = lead.clone();
+            a.extend(if ta { [k, r] } else { [r, k] });
+            let b: Vec<usize> = if tb { vec![c, k] } else { vec![k, c] };
+            let tr = [[true, false], [false, true], [true, true], [true, true]][tri];
+            let leaves = vec![LeafSpec { dims: a.clone(), vals: gen_vals(i, numel(&a), VKind::Int), tracked: tr[0] }, LeafSpec { dims: b.clone(), vals: gen_vals(i + 1, numel(&b), VKind::Int), tracked: tr[1] }];
+            let out_n = numel(&lead) * r * c;
+            Some(GradCase { op: Matmul { ta, tb, has_c: false }, leaves, seed: Some(gen_vals(i + 2, out_n, VKind::Int)), uses: 1, passes: 1, same_operand: false, detached_clone: 0 })
+        }));
+        let cv: Vec<(Vec<usize>, Vec<usize>, usize, usize)> = vec![
+            (vec![6, 5, 5], vec![2, 6, 4, 4], 1, 1),
+            (vec![2, 6, 6, 6], vec![1, 6, 4, 4], 2, 2),
+            (vec![1, 12, 12], vec![1, 1, 10, 10], 1, 1),
+            (vec![1, 3, 70], vec![2, 1, 2, 3], 1, 1),
+            (vec![2, 9, 9], vec![3, 2, 7, 7], 1, 2),
+            (vec![1, 20, 3], vec![1, 1, 2, 2], 3, 1),
+        ];
+        st.merge(ctx.run_indexed("large-conv-dimensions", cv.len() as u64 * 3, None, |i| {
+            let (image, filters, sr, sc) = cv[(i / 3) as usize].clone();
+            let tr = [[true, false], [false, true], [true, true]][(i % 3) as usize];
+            let cfg = ConvCfg { image: image.clone(), filters: filters.clone(), sr, sc };
+            let n = image.len();
+            let out_n = numel(&image[..n - 3]) * filters[0] * cfg.out_windows();
+            let leaves = vec![LeafSpec { dims: image.clone(), vals: gen_vals(i, numel(&image), VKind::Int), tracked: tr[0] }, LeafSpec { dims: filters.clone(), vals: gen_vals(i + 1, numel(&filters), VKind::Int), tracked: tr[1] }];
+            Some(GradCase { op: Conv { sr, sc }, leaves, seed: Some(gen_vals(i + 2, out_n, VKind::Int)), uses: 1, passes: 1, same_operand: false, detached_clone: 0 })
+        }));
+        // operands of IDENTICAL shape with 64 .. 130 elements, every tracked subset
+        let shapes: Vec<Vec<usize>> = vec![vec![64], vec![8, 8], vec![4, 4, 4], vec![65], vec![16, 5], vec![100], vec![128], vec![2, 65], vec![13, 10]];
+        let nsh = shapes.len() as u64;
+        st.merge(ctx.run_indexed("equal-shapes-of-64-and-more-elements", nsh * 5 * 3, None, |i| {
+            let d = shapes[(i % nsh) as usize].clone();
+            let mut c = ew_case(&(d.clone(), d.clone()), ((i / nsh) % 5) as usize, (i / nsh / 5) as usize, true);
+            c.seed = Some(gen_vals(i, numel(&d), VKind::Int));
+            Some(c)
+        }));
+    }
     // random values / sizes / parameters
     let (max_rank, max_size, total) = t.pick((4usize, 7usize, 60000u64), (5, 10, 1200000));
     let strat = move || {
